@@ -217,14 +217,18 @@ def rule_view(ctx: Ctx):
     wantk = {"state": "self.state", "source": "self.source", "target": "self.target", "transition": "self.transition",
              "event": "self.trigger_data.event", "model": "self.trigger_data.model", "machine": "self.trigger_data.machine",
              "event_data": "self"}
+    from ..shapes import dict_model
+
     for p in ctx.paths(ek):
         got = {}
-        for e in p.events:
-            if e.kind == "store" and e.x.get("subscript") and isinstance(e.term.slice, ast.Constant):
-                got[e.term.slice.value] = xshow(e.x["value"], p.events)
+        if p.kind == "return":
+            dm = dict_model(p, p.value if isinstance(p.value, ast.Dict) else show(p.value))
+            if dm is not None:
+                got = {k_: xshow(v, p.events) for k_, v in dm.final().items()}
         for key, w in wantk.items():
             g = got.get(key)
-            okv = g == w or (key in ("machine",) and g == "self.machine") or (key == "event" and g == "self.event")
+            okv = g == w or (key in ("machine",) and g == "self.machine") or (key == "event" and g == "self.event") or \
+                (key == "args" and g == "self.args")
             rep.check(bool(okv), "C02.view", ek.loc(), f"extended_kwargs['{key}'] is the event's own {key}", ek.key,
                       f"kwargs['{key}'] = {g}", got=g, expected=w)
 
